@@ -482,6 +482,9 @@ REDEF = [
     ('#define X 1\n(X);\n#define X 1\nX;', True), ('#define X 1\n-X;\n#define X 1\n(X);', True), ('#define SQ(a) a*a\n-SQ(3);\n#define SQ(a) a*a\n', True),
     ('#define f(x)x\n#define f(x) x\nf(1);', True), ('#define g(x) x\n#define g(x)x\n', True),
     ('#define X(a) a + 1\n#define X(a) a+1\n', False), ('#define X(a) a  +  1\n#define X(a) a + 1\n', True), ('#define X (1)\n#define X(a) (1)\n', False),
+    # the white-space separation of every token counts, punctuators included
+    ('#define X(a) (a)+(a)\n#define X(a) (a) + (a)\n', False), ('#define X a+b\n#define X a +b\n', False), ('#define X ()\n#define X ( )\n', False), ('#define X(a) #a\n#define X(a) # a\n', False),
+    ('#define X(a) (a) + (a)\n#define X(a) (a)  +\t(a)\n', True),
 ]
 DIRECTIVES = [('#if 1\n', False), ('#ifdef A\n', False), ('#ifndef A\n', False), ('#elif 1\n', False), ('#else\n', False), ('#endif\n', False), ('#include "x.h"\n', False),
               ('#error no\n', False), ('#frob\n', False), ('#define C a ## b\n', False), ('#define C(a) #b\n', False), ('#define C __VA_ARGS__\n', False),
